@@ -4,6 +4,7 @@ def b_DynamicObstacle_create_node : CR.SrcW.Builder where
   kind := .node
   tag := "?obstacle_role.value + 'Obstacle'"
   xsd := "dynamicObstacle"
+  path := []
   parent := ""
   attrs := []
   gattrs := []
@@ -34,7 +35,8 @@ def b_DynamicObstacle_create_node_initialSignalState : CR.SrcW.Builder where
   key := "DynamicObstacleXMLNode.create_node/initialSignalState"
   kind := .node
   tag := "initialSignalState"
-  xsd := ""
+  xsd := "dynamicObstacle"
+  path := ["initialSignalState"]
   parent := "DynamicObstacleXMLNode.create_node"
   attrs := []
   gattrs := []
@@ -47,7 +49,8 @@ def b_DynamicObstacle_create_node_initialState : CR.SrcW.Builder where
   key := "DynamicObstacleXMLNode.create_node/initialState"
   kind := .node
   tag := "initialState"
-  xsd := ""
+  xsd := "dynamicObstacle"
+  path := ["initialState"]
   parent := "DynamicObstacleXMLNode.create_node"
   attrs := []
   gattrs := []
@@ -60,7 +63,8 @@ def b_DynamicObstacle_create_node_shape : CR.SrcW.Builder where
   key := "DynamicObstacleXMLNode.create_node/shape"
   kind := .node
   tag := "shape"
-  xsd := ""
+  xsd := "dynamicObstacle"
+  path := ["shape"]
   parent := "DynamicObstacleXMLNode.create_node"
   attrs := []
   gattrs := []
